@@ -488,9 +488,18 @@ def range_template(rnd):
     whole range, as a sub-range and through a defined name: (wb, range, name or None, formula cells)"""
     wb = WB()
     wb.sheets.append(('b1.xlsx', 'S1'))
-    pop = [i for i in (1, 2, 3) if rnd.random() < 0.6]
-    for i in pop:
-        wb.cells[(0, i, 1)] = ('v', rnd.choice([1, 2, 3, 5, 10, 0.5, -1]))
+    wb.has_array = rnd.random() < 0.3
+    if wb.has_array:
+        # A1:A2 is an array formula lying wholly inside the range
+        wb.cells[(0, 1, 5)] = ('v', 3); wb.cells[(0, 2, 5)] = ('v', 4)                 # E1:E2
+        wb.cells[(0, 1, 1)] = ('a', 2, 1, ('bin', '*', ('ref', (0, 1, 2, 5, 5)), ('lit', 2)))
+        pop = [1, 2] + ([3] if rnd.random() < 0.6 else [])
+        if 3 in pop:
+            wb.cells[(0, 3, 1)] = ('v', rnd.choice([1, 5, 10]))
+    else:
+        pop = [i for i in (1, 2, 3) if rnd.random() < 0.6]
+        for i in pop:
+            wb.cells[(0, i, 1)] = ('v', rnd.choice([1, 2, 3, 5, 10, 0.5, -1]))
     wb.cells[(0, 1, 4)] = ('v', rnd.choice([1, 7]))                                     # D1
     R = (0, 1, 3, 1, 1)
     cell = lambda r: ('ref', (0, r, r, 1, 1))
@@ -508,7 +517,7 @@ def range_template(rnd):
         name = 'RNG'
         wb.names[name] = ('b1.xlsx', ('ref', R))
         put(6, ('call', 'SUM', [('name', name)]))
-    wb.explicit = rnd.random() < 0.5
+    wb.explicit = wb.has_array or rnd.random() < 0.5
     if not wb.explicit:
         # blanks stay unlisted: formulas reading an unpopulated cell on its own are dropped (a range override does not
         # reach an unlisted blank: known finding range-override-unlisted-blank)
